@@ -142,8 +142,13 @@ def judge(res, gt, code, r1, r2, more=()):
             continue
         bad = check_var(var, a)
         if bad:
-            res.violation("c04:%s:mode-%s" % (bad[0], var.get("_mode")), "slot %d: %s" % (s, bad[1]),
-                          dict(case, slot=s))
+            sig = "c04:%s:mode-%s" % (bad[0], var.get("_mode"))
+            # the one recorded shape: the value written into the bit-0 field is itself taken out of a wider word
+            # ((x >> j) & m, not multiplied into place because its place is bit 0)
+            if var["kind"] == "packed" and var.get("src_shift") and var["fields"][0][0] == 0 \
+                    and var["src_shift"] + 8 * var["fields"][0][1] <= 256 and var.get("_mode") in ("w", "rw"):
+                sig += ":bit0-field-from-shifted-source"
+            res.violation(sig, "slot %d: %s" % (s, bad[1]), dict(case, slot=s))
         else:
             res.count("vars_recovered")
             res.count("recovered:%s" % var["kind"])
